@@ -1827,9 +1827,20 @@ func DerefFunction(name string) ZlispUserFunction {
 				//P("ptr.PointedToType = '%#v'", ptr.PointedToType)
 				pt := payload.Type()
 				tt := ptr.PointedToType
-				if tt == pt && tt.RegisteredName == pt.RegisteredName {
+				target, targetIsHash := ptr.Target.(*SexpHash)
+				if targetIsHash && tt == pt && tt.RegisteredName == pt.RegisteredName {
+					// the registry only knows the latest declaration of a struct name;
+					// an instance keeps the declaration it was created under, so both
+					// records must have been made from the very same definition.
+					if target.GoStructFactory != payload.GoStructFactory {
+						return SexpNull, fmt.Errorf("cannot assign type '%v' to type '%v': "+
+							"the struct was redeclared in between and the two records "+
+							"follow different declarations",
+							payload.Type().RegisteredName,
+							ptr.PointedToType.RegisteredName)
+					}
 					//P("have matching type!: %v", tt.RegisteredName)
-					ptr.Target.(*SexpHash).CloneFrom(payload)
+					target.CloneFrom(payload)
 					return
 				} else {
 					return SexpNull, fmt.Errorf("cannot assign type '%v' to type '%v'",
